@@ -60,6 +60,7 @@ type Result[O any] struct {
 	Violations     []Violation[O]
 	Outcomes       map[string]int64 // "<op kind>:<label>" -> count
 	PerDepth       []int64
+	SampleHists    [][]O // a few of the deepest histories explored
 }
 
 type node[S any, O any] struct {
@@ -171,6 +172,12 @@ func (e *Engine[S, O]) Run() *Result[O] {
 			}
 		}
 		res.PerDepth = append(res.PerDepth, int64(len(next)))
+		if len(next) > 0 {
+			res.SampleHists = nil
+			for _, i := range []int{0, len(next) / 2, len(next) - 1} {
+				res.SampleHists = append(res.SampleHists, next[i].hist)
+			}
+		}
 		if !complete {
 			res.Exhaustive = false
 			if e.MaxTrans > 0 && res.Transitions >= e.MaxTrans {
